@@ -3,6 +3,7 @@
 All rule modules work on these objects only; nothing here reads /repo source text.
 """
 import json
+import os
 
 
 class Ty:
@@ -138,6 +139,89 @@ class Body:
         return "%s:%s" % (sp["file"], sp["line"])
 
 
+def signature_table(d):
+    """{function path: signature string} for the named functions of a fact document"""
+    tys = d["types"]
+    out = {}
+    for b in d["bodies"]:
+        if b.get("def_kind") not in ("Fn", "AssocFn") or b.get("derived") or "instance_of" in b or "inputs" not in b:
+            continue
+        if b.get("impl_trait"):
+            continue        # trait impl methods are named by the trait: nothing to rename
+        sig = "%s|%s|(%s)->%s|pub=%s" % (b["def_kind"], tys[b["impl_self_ty"]]["s"] if "impl_self_ty" in b else "", ",".join(tys[i]["s"] for i in b["inputs"]), tys[b["output"]]["s"], bool(b.get("pub") and b.get("reachable")))
+        out[b["path"]] = sig
+    return out
+
+
+def adt_signature_table(d):
+    """{ADT path: signature} for types that are not reachable from outside the crate"""
+    tys = d["types"]
+    out = {}
+    for a in d["adts"]:
+        if a.get("reachable") or a.get("generic"):
+            continue
+        vs = []
+        for v in a["variants"]:
+            vs.append("%d:%s" % (len(v["fields"]), ",".join(tys[f["ty"]]["s"] for f in v["fields"])))
+        # the type's own path inside its field types (recursive types) is masked
+        sig = "%s|%s|copy=%s" % (a["kind"], ";".join(vs).replace(a["path"], "Self"), a.get("copy"))
+        out[a["path"]] = sig
+    return out
+
+
+_ANCHORS = None
+
+
+def rename_aliases(d):
+    """{new path: old path} for private functions that were renamed or moved: a path of the pinned
+    tree that no longer exists, and exactly one new path with the same signature (and vice versa)"""
+    global _ANCHORS
+    if _ANCHORS is None:
+        try:
+            _ANCHORS = json.load(open(os.path.join(os.path.dirname(os.path.abspath(__file__)), "anchors.json")))
+        except Exception:
+            _ANCHORS = {}
+    if not _ANCHORS:
+        return {}
+    fn_anchors = _ANCHORS.get("functions", _ANCHORS)
+    cur = signature_table(d)
+    all_paths = {b["path"] for b in d["bodies"]}
+    feats = set(d.get("features", []))
+    missing = {p: s for p, s in fn_anchors.items() if p not in all_paths and "pub=True" not in s}
+    fresh = {p: s for p, s in cur.items() if p not in fn_anchors and "pub=True" not in s}
+    out = {}
+    for old, sig in missing.items():
+        cands = [p for p, s2 in fresh.items() if s2 == sig]
+        rivals = [p for p, s2 in missing.items() if s2 == sig]
+        if len(cands) == 1 and len(rivals) == 1:
+            # a function that is absent only because its cargo feature is off is not "renamed":
+            # require that some sibling of the old path (same module) still exists
+            mod = old.rsplit("::", 1)[0].split("::")[0].lstrip("<")
+            if any(p.lstrip("<").startswith(mod) for p in all_paths):
+                out[cands[0]] = old
+    return out
+
+
+def adt_aliases(d):
+    """{new ADT path: old ADT path} for crate-private types that were renamed or moved"""
+    rename_aliases(d)       # loads the table
+    anchors = (_ANCHORS or {}).get("adts", {})
+    if not anchors:
+        return {}
+    cur = adt_signature_table(d)
+    have = {a["path"] for a in d["adts"]}
+    missing = {p: s for p, s in anchors.items() if p not in have}
+    fresh = {p: s for p, s in cur.items() if p not in anchors}
+    out = {}
+    for old, sig in missing.items():
+        cands = [p for p, s2 in fresh.items() if s2 == sig]
+        rivals = [p for p, s2 in missing.items() if s2 == sig]
+        mod = old.split("::")[0]
+        if len(cands) == 1 and len(rivals) == 1 and any(p.split("::")[0] == mod for p in have):
+            out[cands[0]] = old
+    return out
+
+
 class FactBase:
     def __init__(self, path):
         with open(path) as f:
@@ -147,6 +231,22 @@ class FactBase:
         for a, b in (("hmac::digest::", "digest::"), ("sha1::digest::", "digest::"), ("md5::digest::", "digest::"), ("sha1::Digest", "digest::Digest"), ("hmac::Mac", "digest::Mac")):
             raw = raw.replace(a, b)
         self.d = json.loads(raw)
+        ta = adt_aliases(self.d)
+        if ta:
+            # a renamed / moved crate-private type: its path is rewritten everywhere (type strings,
+            # impl paths, aggregate names) to the path the rules know
+            import re
+            for new_p, old_p in sorted(ta.items(), key=lambda kv: -len(kv[0])):
+                raw = re.sub(re.escape(json.dumps(new_p)[1:-1]) + r"(?![A-Za-z0-9_])", lambda m, o=json.dumps(old_p)[1:-1]: o, raw)
+            self.d = json.loads(raw)
+        self.type_aliases = ta
+        self.aliases = rename_aliases(self.d)
+        if self.aliases:
+            # a renamed / moved private function is analysed under the path the rules know
+            for new_p, old_p in sorted(self.aliases.items(), key=lambda kv: -len(kv[0])):
+                for tail in ('"', "::{", "::promoted", "::<"):
+                    raw = raw.replace(json.dumps(new_p)[1:-1] + tail, json.dumps(old_p)[1:-1] + tail)
+            self.d = json.loads(raw)
         self.path = path
         self.features = self.d["features"]
         self._types = self.d["types"]
